@@ -30,7 +30,7 @@ func init() {
 	ev.Rule("the endpoint under test (client or server Authenticator, or a plain Stream doing multi-frame typed sends and reads, PutFile / GetFile, PutSecret / GetSecret, StartMessageRead / ReadMessageBytes) talks to an honest cedar peer through a wrapper that counts its Read and Write calls; " +
 		"a baseline run yields the number N of calls of each kind; then for EVERY k in [0,N) and each kind the k-th call blocks forever and, once the wrapper signals the stall, the context is cancelled (variant: a deadline that fires during the stall); " +
 		"further variants: cancelled before the start, cancelled after completion, context.Background(); shapes: no authentication, CLAIMTOBE, FS, TOKEN, SSL (harness certificate), resumed session, three refused handshakes (DENIED for encryption, no common method, SID_NOT_FOUND), plain message exchange; " +
-		"oracle: from the cancellation the call returns within 2 s (re-run twice before it counts) with a non-nil error (the context's own error for plain stream operations) and the connection has been closed (Close itself, also where the transport offers CloseRead/CloseWrite: half the stall points run over such a transport); " +
+		"oracle: from the cancellation the call returns within 2 s (re-run twice before it counts) with a non-nil error (the context's own error for plain stream operations) and the connection has been closed (Close itself, also where the transport offers CloseRead/CloseWrite: half the stall points run over such a transport; a third over a transport installed with SetConnection after the stream was built around another one); " +
 		"cancel-before: immediate error without I/O; cancel-after and Background: same outcome as the baseline; non-trivial = k > 0; distinct by (shape, role, kind, k, variant)")
 	ev.Assume("the 2 s bound only separates 'returns' from 'never returns' (typical return is well under a millisecond)")
 }
@@ -122,6 +122,9 @@ func (h halfConn) CloseWrite() error {
 type Case struct {
 	// Half: the endpoint's transport has separable read and write halves (see halfConn)
 	Half    bool   `json:"half,omitempty"`
+	// Swap: the stream was built around another connection first and got the transport it really uses through
+	// SetConnection (what the TLS upgrade does): it is THAT connection a cancellation has to close
+	Swap bool `json:"swap,omitempty"`
 	Shape   string `json:"shape"`
 	Role    string `json:"role"` // endpoint under test: client | server | sender | receiver
 	Kind    string `json:"kind"` // read | write | ""
@@ -306,6 +309,12 @@ func runCase(c Case) outcome {
 			econn = halfConn{st}
 		}
 		es := stream.NewStream(econn)
+		if c.Swap {
+			first, other := net.Pipe()
+			_ = other.Close()
+			es = stream.NewStream(first)
+			es.SetConnection(econn)
+		}
 		switch c.Role {
 		case "client":
 			neg, err := security.NewAuthenticator(ccfg, es).ClientHandshake(ctx)
@@ -575,10 +584,10 @@ func TestC19Stalls(t *testing.T) {
 		for _, v := range variants {
 			// every other stall point runs over a transport with separable halves (a TCP-like socket)
 			for k := 0; k < base.reads; k++ {
-				jobs = append(jobs, job{Case{Shape: p.shape, Role: p.role, Kind: "read", K: k, Variant: v, Half: (k+len(v))%2 == 0}, base})
+				jobs = append(jobs, job{Case{Shape: p.shape, Role: p.role, Kind: "read", K: k, Variant: v, Half: (k+len(v))%2 == 0, Swap: (k+len(v))%3 == 0}, base})
 			}
 			for k := 0; k < base.writes; k++ {
-				jobs = append(jobs, job{Case{Shape: p.shape, Role: p.role, Kind: "write", K: k, Variant: v, Half: (k+len(v))%2 == 1}, base})
+				jobs = append(jobs, job{Case{Shape: p.shape, Role: p.role, Kind: "write", K: k, Variant: v, Half: (k+len(v))%2 == 1, Swap: (k+len(v))%3 == 1}, base})
 			}
 		}
 	}
